@@ -9,7 +9,6 @@ import (
 	"fmt"
 	"io"
 	"net/http"
-	"net/http/httptest"
 	"os"
 	"path/filepath"
 	"sync/atomic"
@@ -103,7 +102,7 @@ func TestVerifC12Commit(t *testing.T) {
 	}
 	mux := http.NewServeMux()
 	mux.Handle("/upload/", handleUpload(ucfg, cb))
-	srv := httptest.NewServer(mux)
+	srv := verifrt.NewHTTPServer(mux)
 	defer srv.Close()
 	post := func(rep *jreport) (int, string) {
 		body, _ := json.Marshal(rep)
